@@ -80,6 +80,7 @@ func ZZ_C18_memdbOps() {
 	s := NewStore(capn)
 	m := &zzModel{cap: capn}
 	base := uint64(zz.Param("base", 0))
+	below := uint64(zz.Param("below", 0)) // rounds below the pre-populated content are in the window too (late puts into a full ring)
 	for i := 0; i < ninit; i++ {
 		// pre-populated ring: distinct ascending concrete rounds with gaps, symbolic data
 		r := base + uint64(2*i)
@@ -90,7 +91,7 @@ func ZZ_C18_memdbOps() {
 	for i := 0; i < k; i++ {
 		op := zz.Choose(fmt.Sprintf("op%d", i), 7)
 		r := zz.U64(fmt.Sprintf("r%d", i))
-		zz.Assume(r >= base && r < base+win)
+		zz.Assume(r+below >= base && r < base+win)
 		switch op {
 		case 0:
 			sig, prev := zz.U8(fmt.Sprintf("sig%d", i)), zz.U8(fmt.Sprintf("prev%d", i))
